@@ -292,6 +292,7 @@ type JNetTrace struct {
 
 type JNetImpl struct {
 	Performed   int `json:"performed"`
+	QuorumMismatch int `json:"quorumMismatch,omitempty"` // ObservationQuorum answers that differ from "at least 2f+1 observations"
 	MaxPollGapMs int `json:"maxPollGapMs,omitempty"` // longest virtual time an open honest member went without polling its transmit event provider
 	FirstReport map[string]int `json:"firstReport"` // upkeep -> first round in which it was reported
 	Eligible    map[string]int `json:"eligible"`    // upkeep -> round at which it became eligible for everybody
@@ -309,7 +310,7 @@ type netOpts struct {
 }
 
 func runNetwork(t *testing.T, r *Rng, em *Emitter, roundEm func(JRound, JRoundImpl)) (JNetTrace, JNetImpl) {
-	ns := []int{4, 4, 7}
+	ns := []int{4, 4, 7, 5, 6, 9}
 	n := ns[r.Intn(len(ns))]
 	f := (n - 1) / 3
 	faulty := r.Range(0, f)
@@ -613,6 +614,16 @@ func runNetwork(t *testing.T, r *Rng, em *Emitter, roundEm func(JRound, JRoundIm
 			}
 			if b != nil {
 				aos = append(aos, ocr2plustypes.AttributedObservation{Observation: b, Observer: commontypes.OracleID(m.id)})
+			}
+		}
+		// libocr asks the plugin whether the observations it has collected form a quorum: it must say yes exactly from
+		// 2f+1 on (n is not always 3f+1)
+		if len(up) > 0 {
+			for k := 0; k <= len(aos); k++ {
+				q, qerr := up[0].node.Plugin.ObservationQuorum(context.Background(), ocr3types.OutcomeContext{SeqNr: seq, PreviousOutcome: prevBytes}, nil, aos[:k])
+				if qerr != nil || q != (k >= need) {
+					impl.QuorumMismatch++
+				}
 			}
 		}
 		if len(aos) < need || len(up) == 0 {
